@@ -4766,6 +4766,8 @@ class Entity(object, metaclass=EntityMeta):
                     else: attr.__set__(obj, val, undo_funcs)
             except:
                 for undo_func in reversed(undo_funcs): undo_func()
+                pk_index = cache_indexes[entity._pk_attrs_]
+                if pk_index.get(pkval) is obj: del pk_index[pkval]  # registered by _get_from_identity_map_
                 raise
         if pkval is not None: cache_indexes[entity._pk_attrs_][pkval] = obj
         for key, vals in indexes_update.items(): cache_indexes[key][vals] = obj
